@@ -466,7 +466,7 @@ def _diff_classes(recs, opt, gen, q):
     return sorted(cls) or ["same-records-different-multiplicity"]
 
 
-def judge(ctx, rows, chunk=400):
+def judge(ctx, rows, chunk=150):
     for off in range(0, len(rows), chunk):
         part = rows[off:off + chunk]
         fin = os.path.join(ctx.workdir, "rows_%d.json" % off)
